@@ -154,6 +154,17 @@ func (h *harness) replayObject(path string, e *anteEnv, verbose bool) string {
 		return "accepted"
 	}
 	switch {
+	case str("stage") == "handlers" && str("type_url") != "":
+		// a message that passed ValidateBasic and made its handler panic: decode, validate, run the real handler on the populated state
+		res := h.runHandlerRes(str("type_url"), unhex("msg_bytes_hex"), "corpus replay "+path)
+		say("replay: %s through ValidateBasic + router handler -> %s\n", str("type_url"), short(res, 200))
+		switch {
+		case res == "panic":
+			return "panic"
+		case res == "ok":
+			return "accepted"
+		}
+		return "rejected"
 	case str("msg_bytes_hex") != "" || str("type_url") != "":
 		decoded, outs := h.instance("corpus", str("type_url"), unhex("msg_bytes_hex"), "corpus replay "+path)
 		if !decoded {
